@@ -11,6 +11,23 @@ const OPS: &[&str] = &[
   "retain", "remove_item", "reserve", "reserve_exact", "shrink_to", "shrink_to_fit",
 ];
 
+/// a borrowed source element must have been cloned, never copied bit for bit: no element of the vector may carry the
+/// identity of an element the caller still owns
+pub fn alias_check<T: El>(v: &minivec::MiniVec<T>, src: &[T], reg: &str) {
+  let ids: Vec<u32> = src.iter().map(|e| e.id()).collect();
+  let (p, len) = (v.as_ptr(), v.len().min(v.capacity()));
+  for k in 0..len {
+    let a = (p as usize).wrapping_add(k.wrapping_mul(core::mem::size_of::<T>()));
+    if !crate::alloc::readable(a, core::mem::size_of::<T>()) {
+      break;
+    }
+    let id = unsafe { T::raw_id(a as *const T) };
+    if ids.contains(&id) {
+      crate::elem::ledger(format_args!("bitwise-copy reg={} index={} id={} is still owned by the caller's slice (Clone was bypassed)", reg, k, id));
+    }
+  }
+}
+
 impl<T: El> Interp<T> {
   pub fn exec_vec(&mut self, op: &str, t: &[&str]) -> Option<Option<Out>> {
     if OPS.contains(&op) { Some(self.vecop(op, t)) } else { None }
@@ -80,6 +97,7 @@ impl<T: El> Interp<T> {
         self.room(2 * vals.len())?;
         let elems: Vec<T> = vals.iter().map(|&x| T::new(x)).collect();
         let res = scoped(|| v.extend_from_slice(&elems[..]));
+        alias_check(v, &elems, r);
         drop(elems);
         done(res)
       }
